@@ -34,6 +34,15 @@ CHECKS = {
          "Duplicate/zero/collinear/extreme/NaN/inf datasets on all metrics: builds must succeed without panic within the poll bound, structure and store must be exact, every query well-formed.", "Ordering of results is only judged where all operands are finite.", "4 C20"),
 }
 
+CHECKS.update({
+ "C11": ("exploration", "property-based testing of numeric kernels vs f64 reference with rigorous forward error bounds; exhaustive lane enumeration",
+         "Every length 1..=300: one-hot/one-cold pairs at every lane (a dropped or doubled lane is a 100% error), generated pairs from 7 value classes at all byte offsets, on the public dispatch, the exported SSE and AVX kernels, the plain loops and end to end through stored items.", "NEON not reachable on this host; bounds x4 over the standard forward bound (observed error <= 0.13 of the bound).", "4 C11"),
+ "C12": ("exploration", "exhaustive enumeration (d<=12) + property-based testing of the quantised codec and Hamming formulas, bit-exact",
+         "All 2^d sign patterns for d<=12 with special floats, random patterns for d<=300 with prescribed Hamming distance, through every conversion path, the stored bytes, writer/reader read-back and query ordering.", "NEON variants not compiled on x86-64.", "4 C12"),
+ "C13": ("exploration", "schedule enumeration with an owned scheduler (all interleavings of the generator's atomic steps) + property-based schedules + multi-threaded histories",
+         "Every interleaving of 2 requesters x 1-2 next() calls over used-subsets of {0..7} is enumerated; 3-requester schedules are generated; real pools of 1-16 threads build forests with 8-20 trees that must pass the C01 walker.", "Sequentially consistent scheduling of Relaxed atomics (x86-TSO); weak-memory reorderings not explored.", "4 C13"),
+})
+
 NOT_YET = {}
 
 def main():
